@@ -974,3 +974,40 @@ Proof.
   specialize (H _ _ _ _ HJ F). vm_compute in R. injection R as <-. vm_compute in F. injection F as <-.
   destruct H as [Hf _]. destruct (Hf 0 false w_o1 eq_refl) as [Ha _]. vm_compute in Ha. discriminate.
 Qed.
+
+(* SyncEntry.__setitem__ without the guard: on a side that takes its ids from the provider, _update_kids (run
+   by the "path" announcement) re-keys a child of the destination folder with the id the provider reports for
+   the child's new path; when that is the id being moved, the child takes it over (the destination is ousted),
+   and the last line of __setitem__ writes the id back into the destination: two entries carry the id, the
+   destination is not found under it.  Replayed on the real SyncState: corpus/C11/w5_setitem_rekeyed_child.json *)
+Definition setitem_preserves_full : Prop :=
+  forall E s dst src sd s', env_ok E -> IdxJ s -> move_side E s dst src sd = Ok s' -> IdxJ s'.
+Definition w_sq : str := [47;113]%N.
+Definition w_sqk : str := [47;113;47;107]%N.
+Definition w_sn : str := [47;110]%N.
+Definition w_snk : str := [47;110;47;107]%N.
+Definition w_rD : str := [114;68]%N.
+(* LOCAL: oid_is_path with info_path(p).oid = p; REMOTE: opaque ids *)
+Definition E_pathids : env :=
+  mkEnv (fun sd => negb sd) (fun _ => mk_conv true) (fun _ => 1000%N) (fun sd => mk_info (negb sd) []) false.
+(* folder /q (also known remotely), its child /q/k, and an entry whose local id '/n/k' and path '/n' are out of step *)
+Definition w_setitem_pre : list (op * list titem) :=
+  [ (OUpdate false (Some Dir) (Some w_sq) (Some w_sq) None (Some true) None, [TSwap false]);
+    (OSet 0 true (FOid (Some w_rD)), [TSwap false]);
+    (OUpdate false (Some File) (Some w_sqk) (Some w_sqk) None (Some true) None, [TSwap false]);
+    (OUpdate false (Some Dir) (Some w_snk) (Some w_sn) None (Some true) None, [TSwap false]) ].
+Definition w_setitem_tape : list titem := [TSwap true; TSwap true; TOrder [0;1]; TSwap true; TSwap true].
+Lemma E_pathids_ok : env_ok E_pathids.
+Proof. apply (env_ok_wire (fun sd => negb sd) (fun _ => true) (fun _ => 1000%N) (fun sd => mk_info (negb sd) [])). Qed.
+Lemma setitem_refuted : ~ setitem_preserves_full.
+Proof.
+  intros H.
+  destruct (run_ops E_pathids init_state w_setitem_pre) as [s|] eqn:R; [|vm_compute in R; discriminate].
+  assert (HJ: IdxJ (st_tape s w_setitem_tape)).
+  { apply (IdxJ_view s); [reflexivity|].
+    eapply (idx_run E_pathids w_setitem_pre init_state); [exact E_pathids_ok|exact (proj1 idx_init)|vm_compute; reflexivity|exact R]. }
+  destruct (move_side E_pathids (st_tape s w_setitem_tape) 0 2 false) as [s'|] eqn:M.
+  2:{ vm_compute in R. injection R as <-. vm_compute in M. discriminate. }
+  specialize (H _ _ _ _ _ _ E_pathids_ok HJ M). vm_compute in R. injection R as <-. vm_compute in M. injection M as <-.
+  destruct H as [Hf _]. destruct (Hf 0 false w_snk eq_refl) as [Ha _]. vm_compute in Ha. discriminate.
+Qed.
